@@ -112,6 +112,7 @@ struct BufPool {
         else if (op == "write") { size_t i = u64(f[2]); if (i < at(o).size()) at(o).data()[i] = T(u64(f[3])); }
         else if (op == "clear") { at(o).clear(); }
         else if (op == "del") { kill(o); }
+        else if (op == "swap") { using std::swap; swap(at(o), at(atoi(f[2].c_str()))); }   // found by ADL if the library has one
         else { fprintf(stderr, "h_mem: unknown buffer op %s\n", op.c_str()); exit(2); }
     }
 
